@@ -125,6 +125,18 @@ def discover():
     return mods
 
 
+def restore_baseline(outdir):
+    """copy the committed baseline of the generated files back into place; returns the names restored"""
+    import shutil
+    base = os.path.join(os.path.dirname(os.path.dirname(outdir)), "generated.baseline")
+    names = []
+    if os.path.isdir(base):
+        for fn in sorted(os.listdir(base)):
+            shutil.copy(os.path.join(base, fn), os.path.join(outdir, fn))
+            names.append(fn)
+    return names
+
+
 def regenerate(repo, outdir, lock=False):
     """Regenerate every Generated/<NAME>.lean; `changed` = differs from the committed lock."""
     os.makedirs(outdir, exist_ok=True)
@@ -157,6 +169,14 @@ def regenerate(repo, outdir, lock=False):
     if lock:
         json.dump(shas, open(lockpath, "w"), indent=1, sort_keys=True)
         changed_files = []
+        # keep a copy of the baseline files: if an edit to /repo makes the regenerated model unbuildable, the
+        # check falls back to these so that the driver and the spec oracle can still look for a failing input
+        import shutil
+        base = os.path.join(os.path.dirname(os.path.dirname(outdir)), "generated.baseline")
+        shutil.rmtree(base, ignore_errors=True)
+        os.makedirs(base)
+        for name in shas:
+            shutil.copy(os.path.join(outdir, name), os.path.join(base, name))
     info = {"sha256": shas, "changed": bool(changed_files), "changed_files": changed_files, "n_defs": ndefs}
     if errors:
         info["error"] = "; ".join(errors)
